@@ -106,9 +106,10 @@ pub fn decode(ctx: &Ctx, tape: &[u32]) -> FaultCase {
         db.data[0] = rows.into_iter().map(|r| vec![r]).collect();
         db.tick_after_load = false;
     }
-    // rarely the table of a DELETE is large (5 inserts of 1100 rows, values from a counter): the
-    // statement then fails after thousands of rows have gone through its operators
-    let bulk = kind == StmtKind::Delete && t.chance(1, 15);
+    // rarely the table of a DELETE, or the source of an INSERT .. SELECT, is large (5 inserts of 1100
+    // rows, values from a counter): the statement then fails after thousands of rows have gone
+    // through its operators (on disk the INSERT has spilled several row-sets by then)
+    let bulk = matches!(kind, StmtKind::Delete | StmtKind::Insert) && t.chance(1, 15);
     if bulk {
         let td = db.schema[0].clone();
         let mut n = 0i64;
@@ -161,7 +162,22 @@ pub fn decode(ctx: &Ctx, tape: &[u32]) -> FaultCase {
         case.sql_nolimit = case.sql.clone();
         return case;
     }
-    let mut query = {
+    let mut query = if bulk {
+        // INSERT INTO tgt SELECT * FROM <the large table>
+        let td = case.db.schema[0].clone();
+        Query {
+            distinct: false,
+            select: td.cols.iter().map(|c| (E::Col("t1".into(), c.name.clone(), c.ty), c.ty)).collect(),
+            from: vec![FromItem { source: Source::Table(td.name.clone()), alias: "t1".into(), join: None }],
+            where_: None,
+            group_by: vec![],
+            having: None,
+            order_by: vec![],
+            order_extra: vec![],
+            limit: None,
+            offset: None,
+        }
+    } else {
         let mut g = Gen { t: &mut t, cfg: cfg.clone(), schema: &case.db.schema, alias_no: 0 };
         g.query(0)
     };
@@ -188,7 +204,7 @@ pub fn decode(ctx: &Ctx, tape: &[u32]) -> FaultCase {
             case.target = Some("tgt".into());
             case.sql = format!("insert into tgt {full}");
             case.sql_nolimit = format!("insert into tgt {nolimit}");
-            if t.chance(1, 10) {
+            if !bulk && t.chance(1, 10) {
                 // INSERT … VALUES: the child is the values operator
                 let n = 1 + t.pick(3);
                 let td = case.db.schema.last().unwrap();
@@ -611,11 +627,156 @@ fn same_result(case: &FaultCase, limited: bool, clean: &[Row], got: &[Row], unli
     }
 }
 
+// ---------------------------------------------------------------------------------------------
+// part "copy-from": natural failures of COPY .. FROM (no hook involved)
+
+#[derive(Clone, Debug, Serialize, Deserialize)]
+pub struct CopyFromCase {
+    pub disk: bool,
+    /// column types: 0 = int, 1 = varchar, 2 = boolean
+    pub cols: Vec<u8>,
+    /// rows in the table before the statement
+    pub pre: usize,
+    /// well-formed lines of the file
+    pub good: usize,
+    /// a malformed line: (position among the good lines, kind: 0 = text in an int / boolean column,
+    /// 1 = one field too few, 2 = one field too many)
+    pub bad: Option<(usize, u8)>,
+}
+
+fn copyfrom_strategy(_ctx: &Ctx) -> impl Strategy<Value = CopyFromCase> + use<> {
+    (any::<bool>(), prop::collection::vec(0u8..3, 1..4), 0usize..4, prop::sample::select(vec![0usize, 1, 5, 1023, 1024, 1025, 2047, 2048, 3000]), prop::option::weighted(0.7, (0usize..4000, 0u8..3))).prop_map(
+        |(disk, cols, pre, good, bad)| {
+            let bad = bad.map(|(p, k)| (p % (good + 1), k));
+            CopyFromCase { disk, cols, pre, good, bad }
+        },
+    )
+}
+
+fn copyfrom_row(cols: &[u8], i: usize) -> Vec<Val> {
+    cols.iter()
+        .map(|c| match c {
+            0 => Val::Int(i as i64),
+            1 => Val::Str(format!("s{i}")),
+            _ => Val::Bool(i % 2 == 0),
+        })
+        .collect()
+}
+
+fn copyfrom_test(ctx: &Ctx, case: &CopyFromCase, st: &mut Stats) -> Verdict {
+    risinglight::verif::reset();
+    let dir = ctx.case_dir("c15cf");
+    let file = dir.join("in.csv");
+    // the file
+    let mut lines: Vec<String> = (0..case.good)
+        .map(|i| copyfrom_row(&case.cols, 1000 + i).iter().map(|v| match v {
+            Val::Int(x) => x.to_string(),
+            Val::Str(x) => x.clone(),
+            Val::Bool(b) => b.to_string(),
+            _ => String::new(),
+        }).collect::<Vec<_>>().join(","))
+        .collect();
+    let mut bad_kind = None;
+    if let Some((pos, kind)) = case.bad {
+        let mut f: Vec<String> = copyfrom_row(&case.cols, 7).iter().map(|v| match v {
+            Val::Int(x) => x.to_string(),
+            Val::Str(x) => x.clone(),
+            Val::Bool(b) => b.to_string(),
+            _ => String::new(),
+        }).collect();
+        let kind = match kind {
+            0 => match case.cols.iter().position(|c| *c != 1) {
+                Some(i) => {
+                    f[i] = "x?y".into();
+                    0
+                }
+                None => 2,
+            },
+            1 if f.len() > 1 => 1,
+            k => k.max(2),
+        };
+        match kind {
+            1 => {
+                f.pop();
+            }
+            2 => f.push("extra".into()),
+            _ => {}
+        }
+        bad_kind = Some(kind);
+        lines.insert(pos.min(lines.len()), f.join(","));
+    }
+    std::fs::write(&file, lines.join("\n") + if lines.is_empty() { "" } else { "\n" }).unwrap();
+    let r = block_on(async {
+        let db = if case.disk {
+            match open_disk(&DiskCfg::small(), &dir.join("db")).await {
+                Ok(db) => db,
+                Err(e) => return fail("setup:open", e),
+            }
+        } else {
+            Database::new_in_memory()
+        };
+        let decl: Vec<String> = case.cols.iter().enumerate().map(|(i, c)| format!("c{i} {}", ["int", "varchar", "boolean"][*c as usize])).collect();
+        let pre: Vec<Vec<Val>> = (0..case.pre).map(|i| copyfrom_row(&case.cols, i)).collect();
+        let mut setup = vec![format!("create table t({})", decl.join(", "))];
+        if !pre.is_empty() {
+            setup.push(insert_sql("t", &pre));
+        }
+        for s in &setup {
+            if !exec(&db, s).await.is_ok() {
+                return fail("setup", format!("{s} failed"));
+            }
+        }
+        let _ = take_panics();
+        let stmt = format!("copy t from '{}'", file.display());
+        let out = exec_t(&db, &stmt).await;
+        let panics = take_panics();
+        st.evals(1);
+        let after = table_rows(&db, "t").await;
+        let mut want: Vec<Row> = pre.clone();
+        let ctxt = || format!("\n  table t({}) with {} rows, file of {} good lines, malformed line: {:?} (kind {:?}), engine {}\n  statement: {stmt}\n  panics: {panics:?}", decl.join(", "), case.pre, case.good, case.bad.map(|b| b.0), bad_kind, if case.disk { "disk" } else { "memory" });
+        st.class(if case.disk { "engine-disk" } else { "engine-memory" });
+        let v = match (bad_kind, &out) {
+            (_, None) => fail("copyfrom:does-not-return", format!("COPY FROM does not return{}", ctxt())),
+            (Some(k), Some(o)) => {
+                st.class(["bad-line:unparsable-field", "bad-line:too-few-fields", "bad-line:too-many-fields"][k as usize]);
+                if case.bad.is_some_and(|b| b.0 >= 1024) {
+                    st.class("bad-line-after-first-batch");
+                }
+                st.nontrivial((case.disk, k, case.good.min(2000) / 1000, case.bad.map(|b| b.0.min(2048) / 1024)));
+                match (o, &after) {
+                    (Out::Rows(r), _) => fail(format!("copyfrom:ok-despite-malformed-line:{k}"), format!("COPY FROM of a file with a malformed line returned Ok{}{}", fmt_rows(r), ctxt())),
+                    (_, Ok(rows)) if *rows != sorted(want.clone()) => fail(format!("copyfrom:table-changed-by-failed-statement:{k}"), format!("the failed COPY FROM left {} rows in the table (before: {}){}", rows.len(), case.pre, ctxt())),
+                    (_, Err(e)) => fail("copyfrom:table-unreadable", format!("select after the failed COPY FROM: {e}{}", ctxt())),
+                    _ => Verdict::Pass,
+                }
+            }
+            (None, Some(o)) => {
+                st.class("well-formed-file");
+                want.extend((0..case.good).map(|i| copyfrom_row(&case.cols, 1000 + i)));
+                match (o, &after) {
+                    (Out::Rows(r), Ok(rows)) if *r == vec![vec![Val::Int(case.good as i64)]] && *rows == sorted(want.clone()) => Verdict::Pass,
+                    (Out::Rows(r), Ok(rows)) => fail("copyfrom:rows-differ", format!("COPY FROM reported {} and the table has {} rows, expected {}{}", fmt_rows(r), rows.len(), want.len(), ctxt())),
+                    (o, _) => fail(format!("copyfrom:well-formed-file-fails:{}", o.class()), format!("COPY FROM of a well-formed file: {}{}", o.brief(), ctxt())),
+                }
+            }
+        };
+        if case.disk {
+            let _ = shutdown(&db).await;
+        }
+        v
+    });
+    let _ = std::fs::remove_dir_all(&dir);
+    match r {
+        Ok(v) => v,
+        Err(p) => fail(format!("harness-panic:{}", panic_sig(&p)), p),
+    }
+}
+
 pub fn def() -> PropDef {
     PropDef {
         id: "C15",
         level: "fault_enumeration",
-        rule: "tape-generated schema/data (several insert batches = several chunks per scan; 1 in 12 cases one table in 17-24 single-row batches, more than the operator channel holds), engine (memory / disk), optimizer on or off, statement (SELECT with joins, aggregates, DISTINCT, ORDER BY, LIMIT/OFFSET, subqueries; INSERT INTO tgt SELECT | VALUES; DELETE [WHERE pred, with subqueries]; COPY (SELECT) TO file). A recorded clean run gives the operator tree, items per operator and which items each consumer received; then every (operator below the DML node, position 0..=items [items = end of stream; at most 9 positions for long streams incl. 15/16/17], kind in {error, panic}) is injected in a run of its own (plans with more than 64 such fault points: an evenly spread subset of about 64). non-trivial = the injected item (or the end of stream) was received by the operator's consumer in the clean run; distinct by (statement kind, engine, optimizer, operator, position class, fault kind, operators above fully read, parent operator)",
+        rule: "tape-generated schema/data (several insert batches = several chunks per scan; 1 in 12 cases one table in 17-24 single-row batches, more than the operator channel holds), engine (memory / disk), optimizer on or off, statement (SELECT with joins, aggregates, DISTINCT, ORDER BY, LIMIT/OFFSET, subqueries; INSERT INTO tgt SELECT | VALUES; DELETE [WHERE pred, with subqueries]; COPY (SELECT) TO file). A recorded clean run gives the operator tree, items per operator and which items each consumer received; then every (operator below the DML node, position 0..=items [items = end of stream; at most 9 positions for long streams incl. 15/16/17], kind in {error, panic}) is injected in a run of its own (plans with more than 64 such fault points: an evenly spread subset of about 64). non-trivial = the injected item (or the end of stream) was received by the operator's consumer in the clean run; distinct by (statement kind, engine, optimizer, operator, position class, fault kind, operators above fully read, parent operator). Part copy-from (no hook): COPY t FROM a generated CSV file of 0-3000 well-formed lines with, in 70 %, one malformed line (unparsable field, a field too few / too many) at any position: the statement must fail and leave the table as it was; a well-formed file must be imported completely",
         assumptions: vec![
             "operators are deterministic: a consumer that received item k in the clean run asks for it again when the preceding items are the same",
             "a fault must surface as Err when the clean run's consumer received the item and every operator above was read to its end; otherwise Ok with the clean result is accepted as 'the consumer had stopped listening'",
@@ -623,6 +784,6 @@ pub fn def() -> PropDef {
             "a statement that leaves the paused-clock runtime idle for 600 virtual seconds does not return",
         ],
         min_nontrivial: 300,
-        parts: vec![part("faults", 6000, 150_000, strat, test)],
+        parts: vec![part("faults", 6000, 150_000, strat, test), part("copy-from", 600, 12_000, copyfrom_strategy, copyfrom_test)],
     }
 }
